@@ -160,16 +160,16 @@ func checkObj(c Case) ev.Verdict {
 	if e1 != nil || e2 != nil || a.K != ref.KObj || b.K != ref.KObj || a.HasDup() || b.HasDup() {
 		return ev.Excluded("not a pair of duplicate-free objects")
 	}
-	var out []byte
-	var err error
-	if pn := ev.Safe(func() { out, err = jp.CreateMergePatch([]byte(c.A), []byte(c.B)) }); pn != nil {
-		return ev.Verdict{Err: pn}
-	}
 	if b.HasNullMember() {
 		return ev.Excluded("B has a null-valued member (not expressible in RFC 7396)", "b-has-null-member")
 	}
 	if ref.NumSpellingIssue(a, b) {
 		return ev.Excluded("numbers equal in value but spelled differently")
+	}
+	var out []byte
+	var err error
+	if pn := ev.Safe(func() { out, err = jp.CreateMergePatch([]byte(c.A), []byte(c.B)) }); pn != nil {
+		return ev.Verdict{Err: pn}
 	}
 	v := ev.Verdict{}
 	v.NonTrivial, v.Classes = classes(a, b)
@@ -199,16 +199,16 @@ func checkArr(c Case) ev.Verdict {
 			return ev.Excluded("not arrays of objects")
 		}
 	}
-	var out []byte
-	var err error
-	if pn := ev.Safe(func() { out, err = jp.CreateMergePatch([]byte(c.A), []byte(c.B)) }); pn != nil {
-		return ev.Verdict{Err: pn}
-	}
 	if b.HasNullMember() {
 		return ev.Excluded("B has a null-valued member", "b-has-null-member")
 	}
 	if ref.NumSpellingIssue(a, b) {
 		return ev.Excluded("numbers equal in value but spelled differently")
+	}
+	var out []byte
+	var err error
+	if pn := ev.Safe(func() { out, err = jp.CreateMergePatch([]byte(c.A), []byte(c.B)) }); pn != nil {
+		return ev.Verdict{Err: pn}
 	}
 	v := ev.Verdict{Classes: []string{fmt.Sprintf("len=%d", len(a.Arr))}}
 	if err != nil {
